@@ -564,3 +564,22 @@ CHECKS['C04'].update({
             "globSplit_printPath (one part per segment), pass_print_path_real (the REALPATH pass), real_glob_caps / _end (every accepting run binds the group to the same text), "
             "fsMatch_one_glob / fsMatch_end_glob. " + CHECKS['C04']['text'],
 })
+CHECKS['C01'].update({
+    'text': "WINDOWS RULES (C01win): C01_read_win / C01_read_forcewin — composition of C01_read with C17win.win_eq_unix_ci_ex: under FORCEWIN | EXTMATCH [| DOTMATCH] (fnmatch "
+            "mode), for every spelling the strict reader accepts that has no backslash, no bracket and no drive-like beginning, the regex of the faithful port accepts a name "
+            "exactly when the separator-normalised name is in the documented language WITH case folding (names arbitrary: either separator, any case; minus D1 / D3 as "
+            "C01_read); win_nonvacuous (decide+kernel). " + CHECKS['C01']['text'],
+})
+CHECKS['C02'].update({
+    'text': "WINDOWS RULES (C02win): C02_read_globfree_win / C02_read_glob_win / C02_read_glob_forcewin — composition of C02_read_* with C17win.win_eq_unix_ci_ex: under "
+            "FORCEWIN in path mode, for every spelling the strict path reader accepts that has no backslash and no drive-like beginning (brackets allowed), a subject is "
+            "accepted exactly when its separator-normalised form is in the documented path language — both `/` and `\\\\` in the SUBJECT cut pieces, wildcards cross neither, "
+            "`**` crosses both (same exclusions as the Unix theorems, read on the normalised subject); win_path_nonvacuous: on `A\\\\u/v\\\\Bcd` the model's FORCEWIN regex and "
+            "the language of the normalised subject accept, the language of the raw subject does not. " + CHECKS['C02']['text'],
+})
+CHECKS['C03'].update({
+    'text': "WINDOWS RULES (C03win): C03_upper_win / C03_hidden_never_win / C03_forcewin_fn — C03_upper_faithful_sharp transferred through C17win.win_eq_unix_ci (separator "
+            "normalisation never touches a leading dot): under FORCEWIN without DOTMATCH (fnmatch mode, every flag word) a name beginning with `.` is matched only if the "
+            "pattern text begins with a written dot or a leaky extended group, for every pattern text without backslash / bracket / drive-like beginning; applied_star_a "
+            "(all hypotheses discharged for `*a`), nonvacuous. " + CHECKS['C03']['text'],
+})
